@@ -39,6 +39,12 @@ var families = []*Family{
 	{Name: "LastObservedSS", Prefix: 0x13, Segs: []string{"str"}, Codec: "msg:SignerSetTx"},
 	{Name: "TxStatusF", Prefix: 0x14, Segs: []string{"str"}, Codec: "msg:TxStatus"},
 	{Name: "TxFeeRecordF", Prefix: 0x15, Segs: []string{"str"}, Codec: "msg:TxFeeRecord"},
+	// oracle module (its own store)
+	{Name: "OClaim", Store: "OStore", Module: "oracle", Prefix: 0x01, Segs: []string{"str", "str", "u64", "str"}, Codec: "msg:GenericClaim"},
+	{Name: "OAtt", Store: "OStore", Module: "oracle", Prefix: 0x02, Segs: []string{"u64", "str"}, Codec: "msg:Attestation"},
+	{Name: "OEpoch", Store: "OStore", Module: "oracle", Prefix: 0x03, Segs: []string{}, Codec: "u64"},
+	{Name: "OPrices", Store: "OStore", Module: "oracle", Prefix: 0x04, Segs: []string{}, Codec: "msg:Prices"},
+	{Name: "OHolders", Store: "OStore", Module: "oracle", Prefix: 0x05, Segs: []string{}, Codec: "msg:Holders"},
 }
 
 var familyByName = map[string]*Family{}
